@@ -4,6 +4,8 @@
              kind   0 list, 1 set, 2 keyed dict        okind 0 new, 1 loaded, 2 relationships unloaded
              op     L [I code; arg]   0 SetX v | 1 DelX | 2 GetX | 3 SetB v | 4 DelB | 5 GetB | 6 CAdd o
                     | 7 CRem o | 8 CReplace (L l) | 9 CDel | 10 CGet | 11 Flush | 12 Expire
+                    keyed dict only: 13 pop(key o) | 14 pop(key o, None) | 15 popitem | 16 del d[key o]
+                    | 17 setdefault(key o, o) | 18 update(L l) | 19 clear
    output  one entry per executed operation: L [I rc; ret; hx; hb; hc; I modified]
              rc   0 ok | 1 AttributeError | 2 KeyError | 3 ValueError | 4 InvalidRequestError
              ret  L [] | L [I v] | collection members (L [I (-1)] when cs is not in __dict__)
@@ -60,6 +62,13 @@ Definition as_op (t : tree) : option op :=
   | L [I 10%Z; _] => Some CGet
   | L [I 11%Z; _] => Some Flush
   | L [I 12%Z; _] => Some Expire
+  | L [I 13%Z; v] => option_map CPop (as_N v)
+  | L [I 14%Z; v] => option_map CPopD (as_N v)
+  | L [I 15%Z; _] => Some CPopItem
+  | L [I 16%Z; v] => option_map CDelKey (as_N v)
+  | L [I 17%Z; v] => option_map CSetDefault (as_N v)
+  | L [I 18%Z; l] => option_map CUpdate (as_list_of as_N l)
+  | L [I 19%Z; _] => Some CClear
   | _ => None
   end.
 
